@@ -12,7 +12,7 @@ import os, re, json, random, subprocess, sys
 import vlib
 sys.path.insert(0, os.path.join(vlib.VERIF, 'tools', 'translate'))
 
-SKIP = {'larfg', 'larfx'}          # scalar-reflector helpers with in/out scalar conventions of their own (theorems only)
+SKIP = set()          # (larfg / larfx, the scalar-reflector helpers, have their own argument shapes in gen_case)
 SLACK = '64'            # canary bytes between a buffer and its guard page
 WIDE = '65536'
 
@@ -48,6 +48,10 @@ def gen_case(rng, name, sig, cid):
     valid = rng.random() < 0.5
     n = rng.choice([0, 1, 2, 3, 3, 4]) if not valid else rng.choice([1, 2, 3, 3, 4, 5]); k = rng.choice([0, 1, 2, 3])
     m = n if rng.random() < 0.6 else rng.choice([0, 1, 2, 3, 4, 5] if not valid else [1, 2, 3, 4, 5])
+    if valid and rng.random() < 0.15:
+        # larger documented calls: LAPACK switches code paths with the order (unrolled code up to order 10 in xLARFX, blocked algorithms
+        # beyond the block size), and the work space the wrapper allocates for itself is only exercised by them
+        n = rng.choice([11, 12, 17, 33, 40]); m = n if rng.random() < 0.4 else rng.choice([11, 12, 17, 33, 40]); k = rng.choice([1, 3, 12])
     if name in ('orgqr', 'ungqr') and valid: m = max(m, n)
     if name in ('orglq', 'unglq') and valid: n = max(m, n)
     tc = rng.choice('dz')
@@ -65,6 +69,11 @@ def gen_case(rng, name, sig, cid):
         if f == 'O':
             if an not in present: continue
             if rng.random() < 0.02 * p_bad: args[an] = {'obj': 'int'}; continue          # not a matrix at all
+            if name == 'larfx' and an == 'tau':
+                args[an] = {'num': (rng.choice([0.0, 1.5, -0.5, 2.0]) if tc == 'd' or rng.random() < 0.3 else [rng.choice([1.0, 0.5]), rng.choice([-1.0, 0.25])])}; continue
+            if name == 'larfx' and an == 'v': args[an] = {'mat': [other(tc), jitter(m if side == 'L' else n) + rng.choice([0, 0, 2]), 1]}; rows_of[an] = 1; continue
+            if name == 'larfg' and an == 'alpha': args[an] = {'mat': [other(tc), jitter(1) + rng.choice([0, 0, 2]), 1]}; continue
+            if name == 'larfg' and an == 'x': args[an] = {'mat': [other(tc), jitter(max(n - 1, 0)) + rng.choice([0, 0, 1]), 1]}; continue
             if an in ('ipiv', 'jpvt'): spec = [other('i') if rng.random() >= 0.05 * p_bad else 'd', jitter(max(m, n)), 1]
             elif an in ('W', 'S', 'w'):
                 wt = 'z' if (an == 'w' or (an == 'W' and name in ('gees',))) else 'd'
@@ -221,6 +230,7 @@ def overflow_case(r, sig, bigv, dimv, inc):
         if f == 'O':
             if an == 'select' or (pos >= sig['required'] and an not in ('Z', 'U', 'Vt')): continue
             tc = 'i' if an in ('ipiv', 'jpvt') else 'd'
+            if r['name'] == 'larfx' and an == 'tau': args[an] = {'num': 1.5}; continue
             if an in ('w',) or (an == 'a'): tc = 'z'
             args[an] = {'mat': [tc, dimv + 2, 1] if an in ('ipiv', 'jpvt', 'W', 'S', 'w', 'tau', 'd', 'e', 'dl', 'du', 'du2', 'a', 'b') else [tc, dimv + 2, dimv + 2]}
         elif f == 'i' and an in ('n', 'm', 'k', 'nrhs'): args[an] = {'int': dimv}
@@ -365,6 +375,13 @@ def embed_probes(ctx, rng, build, prop):
                 c2 = {'kind': 'embed', 'id': cid, 'routine': name, 'args': {k: v for k, v in case['args'].items() if k not in dims}, 'dims': dims, 'emb': emb,
                       'pad': rng.choice([1, 2, 3]), 'off': rng.choice([1, 2, 3, 5])}
                 res = w.run(c2)
+                if res.startswith('crash') or res == 'worker-died':
+                    # as in lapack_probes: the vectorised kernels of the BLAS library read a little past the end of their operands (larger
+                    # complex operands in particular); run again with a wide canary zone - a write anywhere in the zone or an access beyond
+                    # it still fails there
+                    w2 = Worker(build, WIDE); res2 = w2.run(dict(c2)); w2.close()
+                    if not (res2.startswith('crash') or res2 == 'worker-died'):
+                        stat['library_overread'] = stat.get('library_overread', 0) + 1; res = res2
                 key = res.split('-')[0] if res.startswith('skip') else res
                 stat[key] = stat.get(key, 0) + 1
                 if res.startswith('crash') or res == 'worker-died':
